@@ -208,9 +208,14 @@ def check_case(ctx, case):
     toks = [c01.tok_from_json(j) for j in case.get("tokens", [])]
     spec = dl.spec_spelling(toks)
     meanings = [t.meaning() for t in toks]
-    L = leaf_type(lk, spec)
+    L0 = L = leaf_type(lk, spec)
+    for i in range(case.get("newtype", 0)):
+        # typing.NewType over the leaf type (once, or a NewType of a NewType): at run time a value matches it iff it matches the underlying type
+        from typing import NewType
+
+        L = NewType(f"VfNew{i}", L)
     desc = gt.from_json(case["tree"])
-    real = pt.build(desc, (lambda p: L(np.zeros(tuple(p[1][0])), np.zeros(tuple(p[1][1]))) if p[0] == "P" else payload_value(p)))
+    real = pt.build(desc, (lambda p: L0(np.zeros(tuple(p[1][0])), np.zeros(tuple(p[1][1]))) if p[0] == "P" else payload_value(p)))
     with jaxtyped("context"):
         m = dl.MCtx()
         for pj, shape in case["prior"]:
@@ -224,7 +229,7 @@ def check_case(ctx, case):
                 m = o.ctx
         before = obs.bindings()
         allowed, newm, info = model(lk, meanings, desc, m)
-        descr = f"L={lk}{'[' + spec + ']' if lk in ARRAYISH else ''} tree={case['tree']} prior bindings={before[0]}"
+        descr = f"L={'NewType^' + str(case['newtype']) + ' of ' if case.get('newtype') else ''}{lk}{'[' + spec + ']' if lk in ARRAYISH else ''} tree={case['tree']} prior bindings={before[0]}"
         # bare PyTree and the nested spelling first (on a rejected tree they must leave no trace either)
         if obs.verdict(real, PyTree) != dl.TRUE:
             raise Violation("bare-pytree", case, f"isinstance(x, PyTree) is not True for {descr}")
@@ -253,7 +258,7 @@ def check_case(ctx, case):
     subtree_leaf = lk in ("pair", "pair-any", "tuple-arr", "nt-arr") and "pair-subtree" in case.get("flags", [])
     nontrivial = len(dl_) >= 3 and len(set(dl_)) >= 2 and (subtree_leaf or has_empty(desc) or info.get("used_binding", False))
     ctx.note([lk, spec, case["tree"], case["prior"]], nontrivial,
-             classes=[f"leaf-{lk}", f"got-{got}", f"nleaves-{min(len(dl_), 6)}"] + (["has-empty-or-none"] if has_empty(desc) else [])
+             classes=([f"newtype-{lk}"] if case.get("newtype") else []) + [f"leaf-{lk}", f"got-{got}", f"nleaves-{min(len(dl_), 6)}"] + (["has-empty-or-none"] if has_empty(desc) else [])
              + (["used-binding"] if info.get("used_binding") else []) + (["subtree-is-leaf"] if subtree_leaf else []),
              sample={"leaf_type": lk, "spec": spec, "tree": case["tree"], "prior_bindings": before[0], "verdict": got})
 
@@ -261,7 +266,7 @@ def check_case(ctx, case):
 @st.composite
 def c08_case(draw):
     lk = draw(st.sampled_from(LEAF_KINDS))
-    case = {"leaf": lk, "prior": [], "flags": []}
+    case = {"leaf": lk, "prior": [], "flags": [], "newtype": draw(st.sampled_from([0, 1, 0, 0, 2]))}
     m = dl.MCtx()
     for _ in range(draw(st.integers(0, 3))):
         ptoks = draw(gd.legal_spec(max_axes=3, bound=sorted(m.single), names=["a", "b", "c"], vnames=["v"]))
